@@ -395,6 +395,22 @@ m("codec-readint-bigint-helper", "TAB-CODEC", ["C13", "C03"], "break", BS,
   "\tif b.len > 64 {\n\t\ttmp := new(big.Int)\n\t\tif err := b.readBigInt(b.len, tmp); err != nil {\n\t\t\treturn \"\", err\n\t\t}\n\t\treturn tmp, nil\n\t}\n\tbs, err := b.readN(b.len)\n\tif err != nil {\n\t\treturn \"\", err\n\t}\n\n\tvar ret interface{}",
   "ReadInt", True, "wide ints decoded with the sign-magnitude subfield decoder")
 
+
+EW = "cmd/ion-go/eventwriter.go"
+m("opaque-drop-bigint-arm", "TAB-OPAQUE", ["C16"], "break", MS,
+  "\tif t == bigIntType {\n\t\treturn m.encodeBigInt(v)\n\t}\n", "", "bigIntType", True, "big.Int marshals as {}")
+m("kind-drop-array-arm", "TAB-KIND", ["C16"], "break", MS,
+  "\tcase reflect.Array:\n\t\treturn m.encodeArray(v, hint)\n", "", "Array", True, "arrays can be filled but not written")
+m("textauth-marshal-symbol-fromstring", "OWN-TEXTAUTH", ["C16"], "break", MS,
+  "\t\t\treturn m.w.WriteSymbol(NewSymbolTokenFromString(v.String()))", "\t\t\treturn m.w.WriteSymbolFromString(v.String())", "encodeValue", True,
+  "a symbol-tagged Go string \"$5\" is written as symbol ID 5")
+m("copyloop-clob-as-blob", "TAB-COPYLOOP", ["C20"], "break", PR,
+  "\t\t\terr = p.out.WriteClob(val)", "\t\t\terr = p.out.WriteBlob(val)", "WriteBlob", True, "clobs are copied as blobs")
+m("copyloop-drop-typed-null", "TAB-COPYLOOP", ["C20"], "break", PR,
+  "\t\t\t\terr = p.out.WriteNullType(in.Type())", "\t\t\t\terr = p.out.WriteNull()", "typed nulls", False, "null.int copied as null")
+m("nilmap-eventwriter", "NIL-MAP", ["C20"], "break", EW,
+  "\treturn &eventwriter{enc: ion.NewEncoder(w), inStruct: map[int]bool{}}", "\treturn &eventwriter{enc: ion.NewEncoder(w)}", "inStruct", True, "events writer panics on the first struct")
+
 os.makedirs(os.path.dirname(os.path.abspath(__file__)), exist_ok=True)
 with open(os.path.join(os.path.dirname(os.path.abspath(__file__)), "core.json"), "w") as f:
     json.dump(M, f, indent=1)
